@@ -112,7 +112,7 @@ PROPS["C09"] = vec_prop("The first 22680 run indices enumerate {=,+=,-=,construc
     [{"engine": "vecsim", "config": "asan", "runs": 50000, "deadline": 70}, {"engine": "vecsim", "config": "asan-avx", "runs": 30000, "deadline": 50}],
     [{"engine": "vecsim", "config": "asan", "runs": 1500000, "deadline": 900}, {"engine": "vecsim", "config": "asan-avx", "runs": 1000000, "deadline": 600},
      {"engine": "vecsim", "config": "plain", "runs": 4000000, "base": 1500000, "deadline": 400}])
-PROPS["C14"] = vec_prop("The first run indices enumerate the bounded table of argument faults (20 ordered dimension pairs x 15 binary entry points (incl. weighted rotation by an operator of another dimension, evolution of an expression by a mismatched operator; expression entry points with every "
+PROPS["C14"] = vec_prop("The first run indices enumerate the bounded table of argument faults (20 ordered dimension pairs x 17 binary entry points (incl. rotation by a non-square matrix, weighted rotation by an operator of another dimension, evolution of an expression by a mismatched operator; expression entry points with every "
                         "lvalue/std::move operand combination) x 2 storage kinds, and the constructor/factory window with every index up to d*d+2); later indices place argument faults inside random histories (40% of operations).",
     [{"engine": "vecsim", "config": "asan", "runs": 60000, "deadline": 80}],
     [{"engine": "vecsim", "config": "asan", "runs": 1500000, "deadline": 1200}, {"engine": "vecsim", "config": "asan-avx", "runs": 300000, "deadline": 400}],
